@@ -418,7 +418,12 @@ class DriverRules:
                     inrange = pos.isdigit() and int(pos) >= 48
                     src = next((x for x in ev if x[0] == 'R' and x[1] == 'fin' and show(x[2]) == pos), None)
                     name = src[4][2][-1] if src and src[4][0] == 'loc' and src[4][2] else pos
-                    rec.ob('R05.a', 'R05.a@%s::unauthenticated-%s' % (fkey(self.verify), name), pinned or inrange, e[-1] if e[0] == 'STREAM' else where,
+                    rdfn = None
+                    if src is not None:
+                        cands = [g for g in self.prog.functions.values() if g['q'] == src[6]]
+                        rdfn = cands[0] if len(cands) == 1 else None
+                    anchor = fkey(rdfn) if rdfn else fkey(self.verify)
+                    rec.ob('R05.a', 'R05.a@%s::unauthenticated-%s' % (anchor, name), pinned or inrange, e[-1] if e[0] == 'STREAM' else where,
                            'T=%d: value read from input offset %s (%s byte) steers %s after verification; offset is %s the authenticated range [48,EOF)%s' % (
                                T, pos, size, {'STREAM': 'the choice of cipher stream', 'SEEK': 'a seek', 'PIPE': 'the pipeline'}[e[0]],
                                'inside' if inrange else 'OUTSIDE', '' if not pinned else ' but pinned to one value'))
